@@ -103,15 +103,19 @@ theorem flushEnd_check {s : St} {m : Nat} (h : check s (.flushEnd m true) = none
     simp only [Bool.true_and, List.any_eq_true]
     exact ⟨u, hu, by simp [hcond.1, hcond.2]⟩
 
+/-- the wire batches seen since `n` batches had been seen -/
+def batchesSince (s : St) (n : Nat) : List Batch := s.batches.take (s.batches.length - n)
+
 theorem closed_check {s : St} {m : Nat} (h : check s (.closed m) = none) :
     ∀ r ∈ s.openRecs, r.1 = m →
-      (∃ b ∈ s.batches, b.m = m ∧ b.part = r.2.1 ∧ b.first ≤ r.2.2 ∧ r.2.2 ≤ b.last ∧ b.ty = 2) ∨ (m, r.2.1) ∈ s.closeErr := by
+      (∃ b ∈ batchesSince s r.2.2.2, b.m = m ∧ b.part = r.2.1 ∧ b.first ≤ r.2.2.1 ∧ r.2.2.1 ≤ b.last ∧ b.ty = 2) ∨
+      (m, r.2.1) ∈ s.closeErr := by
   simp only [check] at h
   split at h
   · simp at h
   · rename_i hn
     intro r hr hm
-    by_cases h1 : ∃ b ∈ s.batches, b.m = m ∧ b.part = r.2.1 ∧ b.first ≤ r.2.2 ∧ r.2.2 ≤ b.last ∧ b.ty = 2
+    by_cases h1 : ∃ b ∈ batchesSince s r.2.2.2, b.m = m ∧ b.part = r.2.1 ∧ b.first ≤ r.2.2.1 ∧ r.2.2.1 ≤ b.last ∧ b.ty = 2
     · exact Or.inl h1
     · by_cases h2 : (m, r.2.1) ∈ s.closeErr
       · exact Or.inr h2
